@@ -42,6 +42,8 @@ def gen_history(rng, case, n_ops, change_ops=True):
                     break
         elif change_ops and r < 0.22:
             i = rng.randrange(nm)
+            if i == case.get("wide"):
+                continue
             ne = min(abs(vals[i]) * 0.2, max(abs(vals[i]) * 1e-6, errs[i] * 10 ** rng.uniform(-1, 1)))
             errs[i] = ne
             ops.append(["setError", i, bits(ne)])
@@ -81,6 +83,16 @@ def gen_case(rng, n_ops, change_ops=True):
         # every measurement needs a non-zero uncertainty (Monte Carlo reads are compared by identity)
         c["errs"] = [bits(max(unbits(e), abs(unbits(v)) * 1e-4)) for v, e in zip(c["vals"], c["errs"])]
         c["rho"] = []
+        # sometimes a WIDE source under a domain-restricted operator: part of the Monte Carlo
+        # draws is then undefined and discarded (the stored simulation is shorter than requested)
+        restricted = {"sqrt", "ln", "log10", "asin", "acos"}
+        direct = [c["nodes"][n[2]][1] for n in c["nodes"]
+                  if n[0] == "un" and n[1] in restricted and c["nodes"][n[2]][0] == "var"]
+        c["wide"] = None
+        if direct and rng.random() < 0.6:
+            i = rng.choice(direct)
+            c["errs"][i] = bits(abs(unbits(c["vals"][i])) * rng.uniform(0.45, 0.8))
+            c["wide"] = i
         c["ops_hist"] = gen_history(rng, c, n_ops, change_ops)
         c["units"] = [rng.choice(UNITS) for _ in range(c["n_meas"])]
         return c
